@@ -145,6 +145,14 @@ package combinator
 //@ -- everything except the run's own two arrays (the scratch slice of nodes and the result list) keeps its alternatives
 //@ pure func seqFrame(s *sequence) bool = forall x parsley.Node, k int :: parsley.ListArr(x) == 0 || (!freshid(parsley.ListArr(x)) && (old(cap(s.nodes)) == 0 || parsley.ListArr(x) != old(array(s.nodes))) && (old(s.result) == nil || parsley.ListArr(x) != old(parsley.ListArr(s.result)))) ==> same(parsley.Alt(x, k), old(parsley.Alt(x, k)))
 
+//@ -- GhostElemCp(s, d): the curtailing set the element parser at depth d returned to the current run of s. While the
+//@ -- run is still at its start position (merge), every such set has been merged into s.curtailingParsers before the
+//@ -- alternatives of that element are explored (C01: a cached result must name every curtailment it depends on).
+//@ ghostfun GhostElemCp(s *sequence, d int) data.IntSet
+//@ pure func cpMerged(s *sequence, d int) bool = forall x int :: data.Member(data.ElemsOf(GhostElemCp(s, d)), x) ==> data.Member(data.ElemsOf(s.curtailingParsers), x)
+//@ pure func cpMono(s *sequence) bool = forall x int :: old(data.Member(data.ElemsOf(s.curtailingParsers), x)) ==> data.Member(data.ElemsOf(s.curtailingParsers), x)
+//@ pure func elemCpKept(s *sequence, upto int) bool = forall d int :: d < upto ==> same(GhostElemCp(s, d), old(GhostElemCp(s, d)))
+
 //@ func (s *sequence) parse(depth int, ctx *parsley.Context, lrc data.IntMap, pos parsley.Pos, merge bool) (done bool)
 //@   flag slow
 //@   requires seqOK(s, ctx) && seqShape(s) && 0 <= depth && depth <= len(s.nodes) && (depth == 0 || lookupOf(s.parserLookUp, depth-1) != nil)
@@ -156,6 +164,8 @@ package combinator
 //@   assert_at entry [sep] cap(s.nodes) == 0 || s.result == nil || !typeis[ast.NodeList](s.result) || array(s.result.(ast.NodeList)) != array(s.nodes)
 //@   assert_at call:HandleResult#1 [handler-input;C01,C04] len(lastarg[[]parsley.Node](3)) == depth && forall k int :: 0 <= k && k < depth ==> same(lastarg[[]parsley.Node](3)[k], s.nodes[k])
 //@   assert_at call:HandleResult#2 [handler-input;C01,C04] len(lastarg[[]parsley.Node](3)) == depth && forall k int :: 0 <= k && k < depth ==> same(lastarg[[]parsley.Node](3)[k], s.nodes[k])
+//@   ghost_at call:Parse#1 GhostElemCp(s, depth) = lastres[data.IntSet](1)
+//@   ensures  [cp-mono;C01] cpMono(s) && elemCpKept(s, depth)
 //@   requires [L;C06] seqErrOK(s)
 //@   ensures  [L;C06] seqErrOK(s)
 //@   ghost_at call:Parse#1 when lastres[parsley.Error](2) != nil && lastres[parsley.Error](2).Pos() > parsley.GhostBest :: parsley.GhostBest = lastres[parsley.Error](2).Pos()
@@ -163,6 +173,7 @@ package combinator
 //@   ensures  [nodes-arr;C07] (array(s.nodes) == old(array(s.nodes)) && cap(s.nodes) == old(cap(s.nodes))) || fresh(s.nodes)
 //@   ensures  [result-arr;C07] s.result == nil || parsley.ListArr(s.result) == 0 || freshid(parsley.ListArr(s.result)) || (old(s.result) != nil && parsley.ListArr(s.result) == old(parsley.ListArr(s.result)) && parsley.NAlts(s.result) >= old(parsley.NAlts(s.result)) && parsley.NAlts(s.result) + parsley.ListSpare(s.result) == old(parsley.NAlts(s.result) + parsley.ListSpare(s.result)))
 //@   ensures  [alt-frame;C07] seqFrame(s)
+//@   assigns  GhostElemCp
 //@   assigns  s.curtailingParsers, s.result, s.err, s.nodes, cells(s.nodes)
 //@   assigns  ite(s.result != nil && typeis[ast.NodeList](s.result), cells(s.result.(ast.NodeList), len(s.result.(ast.NodeList)), cap(s.result.(ast.NodeList))), nothing())
 //@   assigns  like parsley.Parser.Parse(nil, ctx, lrc, pos)
@@ -173,6 +184,7 @@ package combinator
 //@   invariant seqOK(s, ctx) && len(s.nodes) >= old(len(s.nodes)) && depth <= len(s.nodes) && parsley.WfCtx(ctx) && parsley.WfCache(ctx) && seqGhost(ctx)
 //@   invariant same(s.parserLookUp, old(s.parserLookUp)) && same(s.lenCheck, old(s.lenCheck)) && same(s.resultHandler, old(s.resultHandler)) && s.token == old(s.token) && same(s.interpreter, old(s.interpreter))
 //@   invariant [active;C02] parsley.ActiveOK(lrc, pos)
+//@   invariant [cp-merged;C01] cpMono(s) && elemCpKept(s, depth) && (merge ==> cpMerged(s, depth))
 //@   invariant [L;C06] seqErrOK(s)
 //@   invariant [rest] forall j int :: k <= j && j < len(rest) ==> validSeqNode(rest[j]) && pos <= rest[j].ReaderPos()
 //@   invariant [alt-frame] seqFrame(s)
@@ -196,12 +208,15 @@ package combinator
 //@   ensures  [next;C01,C02] ncalls() == 1 && callarg[int](1, 1) == depth+1 && callarg[*parsley.Context](1, 2) == ctx && callarg[parsley.Pos](1, 4) == node.ReaderPos()
 //@   ensures  [next-same-pos;C01,C02] node.ReaderPos() <= pos ==> same(callarg[data.IntMap](1, 3), lrc) && callarg[bool](1, 5) == merge
 //@   ensures  [next-consumed;C01,C02] node.ReaderPos() > pos ==> !callarg[bool](1, 5) && forall k int :: !dom(data.MapOf(callarg[data.IntMap](1, 3)), k)
+//@   requires [cp-merged;C01] merge ==> cpMerged(s, depth)
+//@   ensures  [cp-mono;C01] cpMono(s) && elemCpKept(s, depth+1)
 //@   requires [L;C06] seqErrOK(s)
 //@   ensures  [L;C06] seqErrOK(s)
 //@   ensures  [pc1;C04] s.result != nil || s.err != nil || parsley.GhostCurtailed
 //@   ensures  [nodes-arr;C07] (array(s.nodes) == old(array(s.nodes)) && cap(s.nodes) == old(cap(s.nodes))) || fresh(s.nodes)
 //@   ensures  [result-arr;C07] s.result == nil || parsley.ListArr(s.result) == 0 || freshid(parsley.ListArr(s.result)) || (old(s.result) != nil && parsley.ListArr(s.result) == old(parsley.ListArr(s.result)) && parsley.NAlts(s.result) >= old(parsley.NAlts(s.result)) && parsley.NAlts(s.result) + parsley.ListSpare(s.result) == old(parsley.NAlts(s.result) + parsley.ListSpare(s.result)))
 //@   ensures  [alt-frame;C07] seqFrame(s)
+//@   assigns  GhostElemCp
 //@   assigns  s.curtailingParsers, s.result, s.err, s.nodes, cells(s.nodes)
 //@   assigns  ite(s.result != nil && typeis[ast.NodeList](s.result), cells(s.result.(ast.NodeList), len(s.result.(ast.NodeList)), cap(s.result.(ast.NodeList))), nothing())
 //@   assigns  like parsley.Parser.Parse(nil, ctx, lrc, pos)
@@ -221,6 +236,7 @@ package combinator
 //@   ensures  [L-success;C06] n != nil && parsley.GhostBest >= 0 ==> ctx.Error() != nil && ctx.Error().Pos() >= parsley.GhostBest
 //@   ensures  [cp] data.Inv(cp)
 //@   ensures  [one] n != nil ==> err == nil
+//@   assigns  GhostElemCp
 //@   assigns  s.curtailingParsers, s.result, s.err, s.nodes, cells(s.nodes)
 //@   assigns  like parsley.Parser.Parse(nil, ctx, lrc, pos)
 
@@ -233,6 +249,10 @@ package combinator
 //@   requires s != nil
 //@   include  parsley.Parser.Parse
 //@   ensures  [L-failure;C06] n == nil && parsley.GhostBestOut >= 0 ==> err != nil && err.Pos() >= parsley.GhostBestOut
+//@   logs combinator.(*sequence).Parse
+//@   ensures  [run;C01] ncalls() == 1 && same(n, callres[parsley.Node](1, 0)) && same(cp, callres[data.IntSet](1, 1))
+//@   ensures  [named;C06] callres[parsley.Error](1, 2) != nil && old(s.customErr) != nil && callres[parsley.Error](1, 2).Pos() == pos && parsley.IsNotFound(callres[parsley.Error](1, 2)) ==> err != nil && err.Pos() == pos && same(err.Cause(), old(s.customErr))
+//@   ensures  [kept;C06] !(callres[parsley.Error](1, 2) != nil && old(s.customErr) != nil && callres[parsley.Error](1, 2).Pos() == pos && parsley.IsNotFound(callres[parsley.Error](1, 2))) ==> same(err, callres[parsley.Error](1, 2))
 //@   ghost_entry parsley.GhostSeqMark = allocmark()
 //@   ghost_return parsley.GhostSeqMark = old(parsley.GhostSeqMark)
 //@   ghost_return when err != nil && err.Pos() > parsley.GhostMaxFail :: parsley.GhostMaxFail = err.Pos()
